@@ -187,5 +187,5 @@ def space(tier):
                 if rng.random() < 0.8:
                     h["name"] = "net_" + rng.choice(["ac", "AC"]) + "_" + h["name"].split("_")[2]
         return p
-    sp.add("random", 12000 if tier == "quick" else 300_000, rnd)
+    sp.add("random", 12000 if tier == "quick" else 1_500_000, rnd)
     return sp
